@@ -946,6 +946,28 @@ def adoption_loops(ctx):
             detail={"inner_loop_test": norm(inner[0][1][0].test) if inner else None})
 
 
+# ---------------------------------------------------------------------------- C01.16 attribute adjustment keeps the order
+def attribute_order(ctx):
+    """Adjusting SVG / MathML / foreign attribute names renames attributes; it must not move them: the token's attributes are an
+    ordered mapping and their order is the source order (it reaches the tree and the serializer).  Renaming by pop-and-reinsert
+    sends every adjusted attribute to the end."""
+    r = ctx.r
+    f = ctx.repo.module(PARSER_REL).functions.get("adjust_attributes")
+    if f is None:
+        r.idiom("C01.16", False, "adjust-attributes-keeps-order", PARSER_REL, "adjust_attributes vanished")
+        return
+    rebuild = [s for s in ast.walk(f.node) if isinstance(s, ast.Assign) and norm(s.targets[0]).endswith("['data']") and
+               any(isinstance(x, (ast.GeneratorExp, ast.ListComp, ast.DictComp)) and ".items()" in norm(x.generators[0].iter) for x in ast.walk(s.value))]
+    pops = [c for c in ast.walk(f.node) if isinstance(c, ast.Call) and isinstance(c.func, ast.Attribute) and c.func.attr in ("pop", "popitem", "move_to_end")]
+    dels = [d for d in ast.walk(f.node) if isinstance(d, ast.Delete)]
+    r.idiom("C01.16", bool(rebuild) and not pops and not dels, "adjust-attributes-keeps-order", f.where,
+            "adjust_attributes: the renaming idiom was not recognised",
+            wrong=[(bool(pops or dels) and not rebuild,
+                    "adjust_attributes renames attributes by removing and re-inserting them: every adjusted attribute moves to the end of "
+                    "the element's attribute list (<svg viewbox=.. id=a> gets id before viewBox)")],
+            detail={"rebuilds_in_order": bool(rebuild)})
+
+
 # ---------------------------------------------------------------------------- C01.10 quirks mode
 QUIRKS_EXACT = {"-//w3o//dtd w3 html strict 3.0//en//", "-/w3c/dtd html 4.0 transitional/en", "html"}
 QUIRKS_SYSTEM = "http://www.ibm.com/data/dtd/v11/ibmxhtml1-transitional.dtd"
@@ -1311,6 +1333,7 @@ def run(ctx):
     r.rule("C01.10", "quirks / limited-quirks decision equals the standard's for representative DOCTYPE tokens", floor=500)
     r.rule("C01.11", "a delegation whose result is discarded cannot lose a reprocess request", floor=50)
     r.rule("C01.13", "formatting-list scans stop at markers; stale formatting element removed from both lists; foreign breakout pops to an HTML element or integration point", floor=10)
+    r.rule("C01.16", "attribute-name adjustment rebuilds the mapping in source order", floor=1)
     r.rule("C01.15", "adoption agency: outer loop bounded by 8, inner loop not bounded by a counter", floor=2)
     r.rule("C01.14", "foster parenting is applied exactly when it is enabled and the current node is table/tbody/tfoot/thead/tr", floor=25)
     r.rule("C01.12", "insertion-mode transitions: each switch is one the standard's steps for that mode and token make; each required switch is reachable", floor=120)
@@ -1329,6 +1352,7 @@ def run(ctx):
     formatting_rules(ctx)
     foster_condition(ctx)
     adoption_loops(ctx)
+    attribute_order(ctx)
     from . import modes
     modes.run(ctx, "C01.12")
     standard_tables(ctx)
